@@ -163,7 +163,7 @@ def r1(R):
             R.check(cs[0].group("type") in "eEgG", "C18.R1", CF, 1, "FORMATS", "strain title %r -> %r" % (t, f),
                     "strain/stress columns (~1e-4) need an exponent format: %r prints zeros" % f)
     w = m.ifunc("columnfile.writefile", keep=("chkarray",))   # private helpers (row format builder, ...) read as if written here
-    rd = m.func("columnfile.readfile")
+    rd = m.nfunc("columnfile.readfile")
     ws = str_consts(w)
     # header lines
     hdr = [s for s in ws if s.startswith("#") and "=" in s]
@@ -210,7 +210,7 @@ def r1(R):
     tail = isinstance(fres, ast.BinOp) and isinstance(fres.op, ast.Add) and isinstance(fres.right, ast.Constant) and fres.right.value == "\n"
     R.check(len(nl) == 1 or (not nl and tail), "C18.R1", CF, w.lineno, "columnfile.writefile", "row terminated by newline", "rows are not newline terminated")
     # reader: float per token, by position
-    fc = m.func("fillcols")
+    fc = m.nfunc("fillcols")
     R.check("cols[j][i] = float(item)" in ast.unparse(fc) and "line.split()" in ast.unparse(fc), "C18.R1", CF, fc.lineno, "fillcols",
             "cols[j][i] = float(item) for j,item in enumerate(line.split())", "tokens are no longer parsed by position with float()")
 
@@ -270,16 +270,22 @@ def r2(R):
                      "the group 'peaks'; the reader accepts that tag, reads every dataset and adds it as a column")
     m = pyfacts.module(R, CF)
     for qual in ("colfile_to_hdf", "colfileobj_to_hdf"):
-        fn = m.func(qual)
-        ifs = [n for n in ast.walk(fn) if isinstance(n, ast.If) and isinstance(n.test, ast.Compare) and isinstance(n.test.ops[0], (ast.In, ast.NotIn))
+        fn = m.ifunc(qual)      # a dtype-selection helper reads as the conditional expression it computes
+        ifs = [n for n in ast.walk(fn) if isinstance(n, (ast.If, ast.IfExp)) and isinstance(n.test, ast.Compare) and isinstance(n.test.ops[0], (ast.In, ast.NotIn))
                and src(n.test.comparators[0]) == "INTS"]
         R.shape(len(ifs) == 1, "C18.R2", CF, qual, "the 'title in INTS' dtype selection")
-        tbranch, fbranch = (ifs[0].body, ifs[0].orelse) if isinstance(ifs[0].test.ops[0], ast.In) else (ifs[0].orelse, ifs[0].body)
+        blist = lambda x: x if isinstance(x, list) else [x]
+        tbranch, fbranch = (blist(ifs[0].body), blist(ifs[0].orelse)) if isinstance(ifs[0].test.ops[0], ast.In) else (blist(ifs[0].orelse), blist(ifs[0].body))
         tt = " ".join(src(x) for x in tbranch)
         ft = " ".join(src(x) for x in fbranch)
         R.check("int64" in tt and "float64" in ft, "C18.R2", CF, ifs[0].lineno, qual, "INTS -> %s ; others -> %s" % (tt, ft),
                 "integer-typed columns must be stored as int64 and all others as float64")
-        tyvar = [a.targets[0].id for a in ast.walk(ifs[0]) if isinstance(a, ast.Assign) and isinstance(a.targets[0], ast.Name)]
+        if isinstance(ifs[0], ast.IfExp):
+            par = getattr(ifs[0], "_parent", None)
+            tyvar = [par.targets[0].id] if isinstance(par, ast.Assign) and isinstance(par.targets[0], ast.Name) else []
+            tyvar.append(src(ifs[0]))
+        else:
+            tyvar = [a.targets[0].id for a in ast.walk(ifs[0]) if isinstance(a, ast.Assign) and isinstance(a.targets[0], ast.Name)]
         ast_calls = [c for c in ast.walk(fn) if isinstance(c, ast.Call) and isinstance(c.func, ast.Attribute) and c.func.attr == "astype"]
         R.check(any(c.args and src(c.args[0]) in tyvar for c in ast_calls), "C18.R2", CF, fn.lineno, qual, "column data .astype(<selected dtype>)",
                 "the selected dtype is not applied to the data that is written")
@@ -293,7 +299,7 @@ def r2(R):
                 "one loop over all titles without early exit", "not every title is written")
         if len(loops) == 1:
             stores_every_path(R, fn, loops[0], qual)
-    rd = m.func("colfile_from_hdf")
+    rd = m.nfunc("colfile_from_hdf")
     accepted = [c for c in ast.walk(rd) if isinstance(c, ast.Compare) and "ImageD11_type" in src(c.left) and isinstance(c.ops[0], ast.In)
                 and isinstance(c.comparators[0], (ast.Tuple, ast.List, ast.Set))]
     R.shape(bool(accepted), "C18.R2", CF, "colfile_from_hdf", "the accepted ImageD11_type tags")
@@ -313,7 +319,7 @@ def r2(R):
     a0 = adds[0].args[0]
     R.check(isinstance(a0, (ast.Subscript, ast.Call)) and "[:]" in src(a0) and src(adds[0].args[1]) == src(loop.target), "C18.R2", CF, adds[0].lineno,
             "colfile_from_hdf", "addcolumn(<group>[name][:], name)", "a dataset is not read back whole under its own name")
-    w = m.func("colfile_to_hdf")
+    w = m.nfunc("colfile_to_hdf")
     rs = find_calls(w, "resize")
     cmp_shape = [c for c in ast.walk(w) if isinstance(c, ast.Compare) and ".shape" in src(c.left) and ".shape" in src(c.comparators[0])]
     R.check(bool(rs) and bool(cmp_shape), "C18.R2", CF, w.lineno, "colfile_to_hdf", "existing dataset of another length is resized (or the write raises)",
@@ -325,8 +331,8 @@ def r3(R):
     R.rule("C18.R3", "parameter files: '%s %s\\n' per key <-> split(' ') into exactly two fields; dumbtypecheck runs at the end "
                      "of loadparameters on every path")
     m = pyfacts.module(R, PAR)
-    w = m.func("parameters.saveparameters")
-    rd = m.func("parameters.loadparameters")
+    w = m.nfunc("parameters.saveparameters")
+    rd = m.nfunc("parameters.loadparameters")
     fm = [s for s in str_consts(w) if "%s" in s]
     R.check(fm == ["%s %s\n"], "C18.R3", PAR, w.lineno, "parameters.saveparameters", "line format %r" % fm, "writer must emit 'name value\\n'")
     sp = [a for a in ast.walk(rd) if isinstance(a, ast.Assign) and isinstance(a.value, ast.Call) and isinstance(a.value.func, ast.Attribute)
@@ -339,13 +345,13 @@ def r3(R):
     ok = bool(calls) and cfg.postdominates(cfg.node_of(calls[-1]), cfg.entry)
     R.check(ok, "C18.R3", PAR, rd.lineno, "parameters.loadparameters", "self.dumbtypecheck() post-dominates the entry",
             "values stay strings on some path: ints/floats do not come back with their types")
-    dt = m.func("parameters.dumbtypecheck")
+    dt = m.nfunc("parameters.dumbtypecheck")
     u = pyfacts.closure_src(m, dt)   # the coercion may live in a helper of the same module
     R.check(re.search(r"\bfloat\(", u) and re.search(r"\bint\(", u) and (".lstrip().rstrip()" in u or ".strip()" in u), "C18.R3", PAR, dt.lineno, "parameters.dumbtypecheck",
             "coercion tries float, then int, else stripped string", "type coercion order changed")
     # columnfile.readfile also coerces header parameters
     cm = pyfacts.module(R, CF)
-    rf = cm.func("columnfile.readfile")
+    rf = cm.nfunc("columnfile.readfile")
     R.check("self.parameters.dumbtypecheck()" in ast.unparse(rf), "C18.R3", CF, rf.lineno, "columnfile.readfile", "header parameters coerced with dumbtypecheck()",
             "header parameters of a columnfile stay strings")
 
@@ -450,8 +456,8 @@ def r4(R):
     R.rule("C18.R4", "grain text files: every tag written is parsed; conversions are inverted (%d<->int, %g/%f<->float, %s<->stripped "
                      "str); 9 UBI numbers with >= 9 significant digits, translation >= 6; per-grain state reset after each grain")
     m = pyfacts.module(R, GR)
-    w = m.func("write_grain_file")
-    rd = m.func("read_grain_file")
+    w = m.nfunc("write_grain_file")
+    rd = m.nfunc("read_grain_file")
     tags = writer_tags(w)
     need = {"translation", "name", "npks", "nuniq", "UBI"}
     R.check(need <= set(tags), "C18.R4", GR, w.lineno, "write_grain_file", "tags written %s" % sorted(tags), "writer lost one of %s" % sorted(need))
@@ -566,8 +572,8 @@ def r5(R):
     R.rule("C18.R5", "grain HDF5: writer and reader iterate the same attribute tables with inverse conversions; dataset 'ubi' on both "
                      "sides; groups are named str(index) and read back sorted by int")
     m = pyfacts.module(R, GR)
-    w = m.func("grain.to_h5py_group")
-    rd = m.func("grain.from_h5py_group")
+    w = m.nfunc("grain.to_h5py_group")
+    rd = m.nfunc("grain.from_h5py_group")
     uw, ur = ast.unparse(w), ast.unparse(rd)
     R.check("save_array(grain_group, 'ubi', self.ubi)" in uw and "grain_group['ubi'][:]" in ur, "C18.R5", GR, w.lineno, "grain.to_h5py_group",
             "'ubi' dataset written and read whole", "ubi dataset name or slicing differs between writer and reader")
@@ -580,15 +586,25 @@ def r5(R):
         ok = len(loops) == 1 and conv in ast.unparse(loops[0]) and "setattr(g, attr" in ast.unparse(loops[0])
         R.check(ok, "C18.R5", GR, rd.lineno, "grain.from_h5py_group", "%s restored with %s" % (table, conv),
                 "the reader does not iterate %s with the inverse conversion" % table)
-    sa = m.func("save_array")
+    sa = m.nfunc("save_array")
     us = ast.unparse(sa)
     R.check("shape=ary.shape" in us and "dtype=ary.dtype" in us and "hds[:] = ary" in us, "C18.R5", GR, sa.lineno, "save_array",
             "dataset keeps the array's shape and dtype", "arrays are stored with another dtype/shape: not exact")
-    wf = m.func("write_grain_file_h5")
-    rf = m.func("read_grain_file_h5")
-    R.check("enumerate(list_of_grains)" in ast.unparse(wf) and "group_name = str(ginc)" in ast.unparse(wf), "C18.R5", GR, wf.lineno, "write_grain_file_h5",
-            "groups named by list position", "order can no longer be reconstructed from group names")
-    R.check("sorted(grains_group.keys(), key=lambda x: int(x))" in ast.unparse(rf), "C18.R5", GR, rf.lineno, "read_grain_file_h5",
+    wf = m.nfunc("write_grain_file_h5")
+    rf = m.nfunc("read_grain_file_h5")
+    loops = [l for l in ast.walk(wf) if isinstance(l, ast.For) and isinstance(l.iter, ast.Call) and src(l.iter.func) == "enumerate" and isinstance(l.target, ast.Tuple)
+             and len(l.target.elts) == 2]
+    calls = [c for l in loops for c in ast.walk(l) if isinstance(c, ast.Call) and isinstance(c.func, ast.Attribute) and c.func.attr == "to_h5py_group"]
+    R.shape(len(loops) == 1 and len(calls) == 1, "C18.R5", GR, "write_grain_file_h5", "for <n>, <g> in enumerate(<grains>): <g>.to_h5py_group(...)")
+    gname = [k.value for k in calls[0].keywords if k.arg == "group_name"] or (calls[0].args[1:2])
+    idx = src(loops[0].target.elts[0])
+    R.check(bool(gname) and pyfacts.resolved_src(wf, gname[0], 3, keep=(idx,)).replace(" ", "") in ("str(%s)" % idx, "'%%d'%%%s" % idx, "'%%d'%%(%s,)" % idx, "'%%s'%%%s" % idx, "'%%s'%%(%s,)" % idx),
+            "C18.R5", GR, wf.lineno, "write_grain_file_h5", "groups named by list position", "order can no longer be reconstructed from group names")
+    srt = [c for c in ast.walk(rf) if isinstance(c, ast.Call) and src(c.func) == "sorted" and c.args and "keys()" in src(c.args[0]) or
+           (isinstance(c, ast.Call) and src(c.func) == "sorted" and c.args)]
+    R.shape(len(srt) >= 1, "C18.R5", GR, "read_grain_file_h5", "the sorted(...) over the group names")
+    keyf = [src(k.value).replace(" ", "") for k in srt[0].keywords if k.arg == "key"]
+    R.check(bool(keyf) and keyf[0] in ("int", "lambdax:int(x)") or (bool(keyf) and re.match(r"^lambda(\w+):int\(\1\)$", keyf[0]) is not None), "C18.R5", GR, rf.lineno, "read_grain_file_h5",
             "groups read back sorted by int(name)", "string sort would put '10' before '2'")
     tabs = {}
     for k in ("STRINGATTRS", "NUMATTRS", "ARRATTRS"):
@@ -601,8 +617,8 @@ def r5(R):
 def r6(R):
     R.rule("C18.R6", "ubi files: three rows of three conversions per matrix, blank line between, reader takes 3 floats per row")
     m = pyfacts.module(R, IDX)
-    w = m.func("write_ubi_file")
-    rd = m.func("readubis")
+    w = m.nfunc("write_ubi_file")
+    rd = m.nfunc("readubis")
     seq = [x for x in write_sequence(w.body) if not x[2]]
     R.shape(bool(seq) and all(x[0] is not None for x in seq), "C18.R6", IDX, "write_ubi_file", "the sequence of formatted writes of one matrix")
     text = "".join(x[0] for x in seq)
@@ -649,8 +665,8 @@ def r7(R):
     R.rule("C18.R7", "sparse frames: attrs itype/shape0/shape1 and datasets row/col/<pixels> agree between to_hdf_group and "
                      "from_hdf_group; h5py attribute managers are only updated, never rebound (X.attrs = ... raises)")
     m = pyfacts.module(R, SPF)
-    w = m.func("sparse_frame.to_hdf_group")
-    rd = m.func("from_hdf_group")
+    w = m.nfunc("sparse_frame.to_hdf_group")
+    rd = m.nfunc("from_hdf_group")
     class H5Norm(ast.NodeTransformer):
         """G.require_dataset(K, ...) / G.create_dataset(K, ...) used as a value is the dataset G[K]"""
         def visit_Call(self, c):
